@@ -178,13 +178,14 @@ for np_ in NP:
                 n_aborts = len(aborts.items(r.st))
                 addressed = q_tx.v == co.txid
                 wal_failed = any(x[0] == 'wal_failed' for x in r.st.notes)
-                unchanged = z3.And([z3.BoolVal(present and len(votes1) == nv and n_aborts == 0)] + ([ph1 == co.phase] if present else []))
+                votes_same = [z3.Or([z3.And(s_ == co.parts[i], k_ == co.vkind[i]) for s_, k_ in votes1]) if votes1 else z3.BoolVal(False) for i in range(nv)]
+                unchanged = z3.And([z3.BoolVal(present and len(votes1) == nv and n_aborts == 0)] + ([ph1 == co.phase] if present else []) + votes_same)
                 # votes after = votes before + (q_shard, vote) when recorded
                 all_parts_yes = z3.And([z3.Or([z3.And(s == p, k == PV['Yes']) for s, k in votes1]) if votes1 else z3.BoolVal(False) for p in co.parts])
                 all_parts_voted = z3.And([z3.Or([s == p for s, k in votes1]) if votes1 else z3.BoolVal(False) for p in co.parts])
                 some_not_yes = z3.Or([k != PV['Yes'] for s, k in votes1]) if votes1 else z3.BoolVal(False)
                 rv = r.retval
-                cs = [z3.BoolVal(present)]
+                cs = [z3.BoolVal(present)] + votes_same        # a recorded vote is never replaced or dropped
                 if present:
                     cs.append(z3.Or(ph1 == co.phase, z3.And(co.phase == PH['Preparing'], z3.Or(ph1 == PH['Prepared'], ph1 == PH['Aborting']))))
                 if rv.variant == 'Err':
